@@ -113,10 +113,12 @@ func init() {
 		x.oblige(fr, st, "bounds", "Grow:"+x.srcText(fr.fn, pos, isCall), "bytes.Buffer.Grow panics on a negative count", pos, Ge(tOf(a[1]), IntLit(0)), nil)
 		// the capacity changes: start a new version of the buffer state so that capacity terms
 		// recorded for the old version are not reused (see bufCapTerm)
-		l := x.vc.Fresh("blen.grown", SInt)
-		x.assume(st, Eq(l, x.bufLen(st, b)))
-		x.setBufLen(st, b, l)
-		x.bufMeta = map[string]*bufMeta{}
+		wasUnread := x.bufUnreadF(st, b)
+		l := x.bufLen(st, b)
+		x.bufBump(st, b)
+		// Grow(n) guarantees room for n more bytes: Cap() >= Len() + n; nothing is read
+		x.assume(st, Ge(x.bufCapF(st, b), Add(l, tOf(a[1]))))
+		x.assume(st, Eq(x.bufUnreadF(st, b), wasUnread))
 		return VStruct{}, true
 	})
 	wr := func(x *Exec, fr *Frame, st *State, a []Value, pos token.Pos, n Term) (Value, bool) {
@@ -171,11 +173,7 @@ func init() {
 		// Bytes() is buf[off:], so its capacity is Cap()-off; off is 0 for a buffer nothing was
 		// read from since it was reset / taken from the pool
 		c := x.bufCapTerm(st, b)
-		if m := x.bufMeta[b.S]; m != nil && m.unreadAt == x.bufVersion(st) {
-			x.assume(st, Eq(s.Cap, c))
-		} else {
-			x.assume(st, Le(s.Cap, c))
-		}
+		x.assume(st, And(Le(s.Cap, c), Implies(x.bufUnreadF(st, b), Eq(s.Cap, c))))
 		return s, true
 	})
 	regModel("(*bytes.Buffer).WriteTo", func(x *Exec, fr *Frame, st *State, a []Value, pos token.Pos, rt types.Type) (Value, bool) {
@@ -345,45 +343,37 @@ func init() {
 	})
 }
 
-// bufMeta: bookkeeping (not part of the logical state) that lets Cap() and Bytes() agree on the
-// capacity of a buffer as long as the buffer state (the buf|len array term) is literally the same
-// version. Every buffer operation and every havoc produces a new version, so stale entries are
-// simply never matched.
-type bufMeta struct {
-	capAt    string
-	capTerm  Term
-	unreadAt string
+// Capacity and read offset of a *bytes.Buffer are not separate heap keys: they are uninterpreted
+// functions of (buffer, the whole buf|len array). Every buffer operation changes that array, so
+// nothing is known about capacity across operations unless a model says so. Operations that change
+// capacity or offset without changing any length (Grow, Reset of an empty buffer, pool Get) bump an
+// "epoch" stored in the same array at a shadow index far below every real reference, which makes the
+// new array differ from the old one.
+func bufShadow(b Term) Term { return Sub(IntLit(-1000000000000), b) }
+
+func (x *Exec) bufBump(st *State, b Term) {
+	// every reference of this encoding (entry objects >= 0, allocations -1, -2, ..., loop
+	// allocations above -1000000*(allocations+1)) lies far above the shadow range
+	x.fact("refrange:"+b.S, Gt(b, IntLit(-100000000000)))
+	h := x.heapGet(st, kBufLen, arrOf(SInt))
+	x.heapSet(st, kBufLen, x.vc.Name(Store(h, bufShadow(b), Add(Select(h, bufShadow(b)), IntLit(1))), "H|buf|len"))
 }
 
-func (x *Exec) bufVersion(st *State) string { return x.heapGet(st, kBufLen, arrOf(SInt)).S }
+func (x *Exec) bufCapF(st *State, b Term) Term {
+	f := x.vc.Fun("bufcap", []Sort{SInt, arrOf(SInt)}, SInt)
+	c := app(SInt, f, b, x.heapGet(st, kBufLen, arrOf(SInt)))
+	x.assume(st, And(Ge(c, x.bufLen(st, b)), Ge(c, IntLit(0)), Le(c, BigLit(pow2(48)))))
+	return c
+}
+
+func (x *Exec) bufUnreadF(st *State, b Term) Term {
+	f := x.vc.Fun("bufunread", []Sort{SInt, arrOf(SInt)}, SBool)
+	return app(SBool, f, b, x.heapGet(st, kBufLen, arrOf(SInt)))
+}
 
 func (x *Exec) bufMarkUnread(st *State, b Term) {
-	if x.bufMeta == nil {
-		x.bufMeta = map[string]*bufMeta{}
-	}
-	m := x.bufMeta[b.S]
-	if m == nil {
-		m = &bufMeta{}
-		x.bufMeta[b.S] = m
-	}
-	m.unreadAt = x.bufVersion(st)
+	x.bufBump(st, b)
+	x.assume(st, x.bufUnreadF(st, b))
 }
 
-func (x *Exec) bufCapTerm(st *State, b Term) Term {
-	if x.bufMeta == nil {
-		x.bufMeta = map[string]*bufMeta{}
-	}
-	m := x.bufMeta[b.S]
-	if m == nil {
-		m = &bufMeta{}
-		x.bufMeta[b.S] = m
-	}
-	v := x.bufVersion(st)
-	if m.capAt != v || !m.capTerm.Valid() {
-		c := x.vc.Fresh("bcap", SInt)
-		x.vc.Assert(And(Ge(c, IntLit(0)), Le(c, BigLit(pow2(48)))))
-		m.capAt, m.capTerm = v, c
-	}
-	x.assume(st, Ge(m.capTerm, x.bufLen(st, b)))
-	return m.capTerm
-}
+func (x *Exec) bufCapTerm(st *State, b Term) Term { return x.bufCapF(st, b) }
